@@ -35,6 +35,7 @@ type Case struct {
 	P1      int    `json:"p1,omitempty"`      // conv/append: extra samples appended to the first operand (a partial last frame), < C1
 	P2      int    `json:"p2,omitempty"`      // conv/append: same for the second operand, < C2
 	PutKind string `json:"putKind,omitempty"` // otherK | otherC | laterFrame | grown
+	Many    int    `json:"many,omitempty"`    // put: buffers checked out at once and all put back before the mismatching Put
 	PrePut  bool   `json:"prePut,omitempty"`
 }
 
@@ -347,6 +348,20 @@ func checkPut(c *Case) (res kit.Result) {
 	if c.PrePut {
 		pool.Put(pool.Get()) // a legitimate, untouched buffer sits in the pool
 	}
+	if c.Many < 0 || c.Many > 100 {
+		return kit.Result{}
+	}
+	if c.Many > 0 {
+		// a burst: Many buffers checked out at once and all put back, so that the pool holds many
+		var burst []kit.AnyBuf
+		for i := 0; i < c.Many; i++ {
+			burst = append(burst, pool.Get())
+		}
+		for _, b := range burst {
+			pool.Put(b)
+		}
+		res.Class("putAfterABurstOfLegitimatePuts")
+	}
 	what := fmt.Sprintf("Put(%s buffer: %d ch, cap %d samples) into a pool of {%d ch, length %d, capacity %d}", c.PutKind, bh.Channels, bh.Cap, C, L, K)
 	trueCap := bh.Cap
 	if _, rc, ok := kit.RawLenCap(bad.Raw()); ok {
@@ -397,7 +412,7 @@ func FP(c *Case) uint64 {
 	if c.PrePut {
 		b = 1
 	}
-	h.Ints([]int{c.C1, c.C2, c.N, c.F1, c.F2, c.A, c.Spare, c.L, b, c.P1, c.P2})
+	h.Ints([]int{c.C1, c.C2, c.N, c.F1, c.F2, c.A, c.Spare, c.L, b, c.P1, c.P2, c.Many})
 	return h.Sum()
 }
 
@@ -461,6 +476,9 @@ func Gen(t *rapid.T) *Case {
 		c.C2 = other("c2", 1, 8, c.C1)
 		c.L = rapid.IntRange(0, c.F1).Draw(t, "l")
 		c.PrePut = rapid.Bool().Draw(t, "prePut")
+		if rapid.IntRange(0, 3).Draw(t, "manySel") == 0 {
+			c.Many = rapid.SampledFrom([]int{2, 9, 17, 31, 32, 33, 40, 65, 100}).Draw(t, "many")
+		}
 	}
 	return c
 }
